@@ -13,6 +13,7 @@ package main
 // resulting query is a sound proof of the obligation.
 
 import (
+	"math/big"
 	"sort"
 )
 
@@ -213,6 +214,57 @@ func indexTerms(t *Term, out map[*Term]map[*Term]bool, seen map[*Term]bool) {
 // select index equals b + v (v occurring once with coefficient 1).
 type basePat struct {
 	root, base *Term
+	coef       int64 // the index is base + coef*v
+}
+
+// linForm: t as a linear combination of atoms plus a constant.
+func linForm(t *Term, k *big.Int, co map[*Term]*big.Int, c *big.Int) {
+	switch {
+	case t.IsConst():
+		c.Add(c, new(big.Int).Mul(k, t.ival))
+	case t.op == "+":
+		for _, a := range t.args {
+			linForm(a, k, co, c)
+		}
+	case t.op == "-" && len(t.args) == 2:
+		linForm(t.args[0], k, co, c)
+		linForm(t.args[1], new(big.Int).Neg(k), co, c)
+	case t.op == "*" && t.args[0].IsConst():
+		linForm(t.args[1], new(big.Int).Mul(k, t.args[0].ival), co, c)
+	default:
+		if co[t] == nil {
+			co[t] = new(big.Int)
+		}
+		co[t].Add(co[t], k)
+	}
+}
+
+// divExact: (t - base) / coef when every coefficient of the difference is divisible by coef.
+func divExact(B *Builder, t, base *Term, coef int64) (*Term, bool) {
+	co := map[*Term]*big.Int{}
+	c := new(big.Int)
+	linForm(t, big.NewInt(1), co, c)
+	linForm(base, big.NewInt(-1), co, c)
+	d := big.NewInt(coef)
+	var atoms []*Term
+	for a, k := range co {
+		if k.Sign() == 0 {
+			continue
+		}
+		if new(big.Int).Mod(k, d).Sign() != 0 {
+			return nil, false
+		}
+		atoms = append(atoms, a)
+	}
+	if new(big.Int).Mod(c, d).Sign() != 0 {
+		return nil, false
+	}
+	sort.Slice(atoms, func(i, j int) bool { return atoms[i].id < atoms[j].id })
+	parts := []*Term{B.Big(new(big.Int).Div(c, d))}
+	for _, a := range atoms {
+		parts = append(parts, B.Mul(B.Big(new(big.Int).Div(co[a], d)), a))
+	}
+	return B.Add(parts...), true
 }
 
 func selectBases(B *Builder, body *Term, v *Term) []basePat {
@@ -228,19 +280,23 @@ func selectBases(B *Builder, body *Term, v *Term) []basePat {
 			idx := t.args[1]
 			roots := map[*Term]bool{}
 			arrayRoots(t.args[0], roots)
-			add := func(b *Term) {
+			add := func(b *Term, coef int64) {
 				for r := range roots {
-					bases[basePat{r, b}] = true
+					bases[basePat{r, b, coef}] = true
 				}
 			}
 			if idx == v {
-				add(B.Int(0))
+				add(B.Int(0), 1)
 			} else if idx.op == "+" {
 				cnt := 0
+				coef := int64(1)
 				var rest []*Term
 				for _, a := range idx.args {
 					if a == v {
 						cnt++
+					} else if a.op == "*" && a.args[0].IsConst() && a.args[1] == v && a.args[0].ival.IsInt64() && a.args[0].ival.Int64() > 1 {
+						cnt++
+						coef = a.args[0].ival.Int64()
 					} else {
 						rest = append(rest, a)
 					}
@@ -252,7 +308,7 @@ func selectBases(B *Builder, body *Term, v *Term) []basePat {
 					}
 				}
 				if ok {
-					add(B.Add(rest...))
+					add(B.Add(rest...), coef)
 				}
 			}
 		}
@@ -275,7 +331,7 @@ func selectBases(B *Builder, body *Term, v *Term) []basePat {
 }
 
 // instantiate builds the quantifier-free query. ok=false if nothing was quantified.
-func instantiateQuery(B *Builder, asserts []*Term, negGoal *Term) ([]*Term, bool) {
+func instantiateQuery(B *Builder, asserts []*Term, negGoal *Term, wide bool) ([]*Term, bool) {
 	ic := &instCtx{B: B, seenQF: map[*Term]bool{}, limit: 2500}
 	anyQ := negGoal.quant
 	for _, a := range asserts {
@@ -299,12 +355,23 @@ func instantiateQuery(B *Builder, asserts []*Term, negGoal *Term) ([]*Term, bool
 	frontier := map[*Term]map[*Term]bool{}
 	{
 		seen := map[*Term]bool{}
-		for _, t := range ic.goalQF {
+		src := ic.goalQF
+		if wide {
+			// second attempt: the goal reads nothing useful (e.g. a bound that follows from a table
+			// property): seed with every read of the quantifier-free part of the query
+			src = ic.qf
+		}
+		for _, t := range src {
 			indexTerms(t, frontier, seen)
 		}
 	}
+	maxRounds := 8
+	if wide {
+		maxRounds = 2
+		ic.limit = 4000
+	}
 	allIdx := map[*Term]map[*Term]bool{}
-	for round := 0; round < 8 && len(frontier) > 0; round++ {
+	for round := 0; round < maxRounds && len(frontier) > 0; round++ {
 		for r, m := range frontier {
 			if allIdx[r] == nil {
 				allIdx[r] = map[*Term]bool{}
@@ -324,6 +391,12 @@ func instantiateQuery(B *Builder, asserts []*Term, negGoal *Term) ([]*Term, bool
 			cands := map[*Term]bool{}
 			for _, bp := range bases {
 				for t := range frontier[bp.root] {
+					if bp.coef != 1 {
+						if q, ok := divExact(B, t, bp.base, bp.coef); ok {
+							cands[q] = true
+						}
+						continue
+					}
 					cands[B.Sub(t, bp.base)] = true
 				}
 			}
